@@ -46,13 +46,16 @@ LABELS = [t for t, _ in _labels()]
 
 SEPS = ["\n", "\r\n", " ", ";", "\x00", "\n\n", ";\n"]
 CHUNKS = [1, 2, 7, 64, 8192]
+CHUNKS_THOROUGH = [1, 2, 3, 4, 5, 7, 8, 9, 15, 16, 17, 63, 64, 65, 4095, 4096, 4097, 8191, 8192, 8193]
 
 
 def tails(label_len, quick):
     out = [("none", b"")]
     ks = {0, 1, 2, 5}
-    for c in (7, 64, 8192):
-        for d in (-2, -1, 0, 1, 2):
+    if not quick:
+        ks |= set(range(0, 140))
+    for c in (7, 64, 8192) if quick else (7, 16, 64, 4096, 8192):
+        for d in (-2, -1, 0, 1, 2) if quick else range(-5, 6):
             k = c - (label_len % c) + d
             if 0 <= k < 9000:
                 ks.add(k)
@@ -191,7 +194,7 @@ def shard_load(spec):
     tmpdir = tempfile.mkdtemp(prefix="c09_")
     try:
         for tailname, tail in tails(len(label.encode("utf-8")) + len(sep.encode("utf-8")), quick):
-            for chunk in CHUNKS:
+            for chunk in (CHUNKS if quick else CHUNKS_THOROUGH):
                 if quick and chunk in (2, 64) and not tailname.startswith("bad@"):
                     continue
                 check_load(label, sep, tailname, tail, chunk, tmpdir, acc)
@@ -311,12 +314,13 @@ def run(ctx):
     cov = {
         "evaluations": acc.n, "distinct_nontrivial": acc.nontrivial,
         "rule": "%d labels x %d separators after END x trailing byte strings (undecodable byte after k valid bytes for "
-                "every k around each chunk boundary of 7/64/8192, NULs, valid UTF-8, truncated multi-byte, second "
+                "every k around each chunk boundary of 7/64/8192 (thorough: every k < 140 and +/-5 around 7/16/64/4096/8192), NULs, valid UTF-8, truncated multi-byte, second "
                 "label, garbage, open quote/comment, long ASCII run) x entry points (str path, Path, file: URL, text "
                 "stream, binary stream, BytesIO, short-read raw stream in binary and text mode, bytes, str, StringIO) "
                 "x chunk sizes %r (stream entries only); dump: %d modules x 5 encoders x 6 targets; non-trivial = "
                 "module equal to the label's module and the last token requested was END / written bytes equal "
-                "dumps() and the length reported" % (len(LABELS), len(seps), CHUNKS, len(dump_modules())),
+                "dumps() and the length reported" % (len(LABELS), len(seps), CHUNKS if q else CHUNKS_THOROUGH,
+                                                    len(dump_modules())),
         "outcome_histogram": dict(acc.outcomes),
         "samples": acc.samples[:6], "exhaustive": True,
     }
